@@ -484,8 +484,115 @@ func codecCases(st *signedTx) {
 			violate("reencoding", "JSON sender", in, "sender after JSON round trip: "+got)
 		}
 		run.Case("unjson "+jsonFields(m), "ok "+rawOf(&jd).String())
+		hashConsistent("JSON round trip", st.s, &jd, in)
 	}
 	run.Count("codec")
+}
+
+// hashConsistent: a transaction object that came out of a decoder must report, as Hash(), the Keccak of ITS OWN RLP encoding
+// (recomputed here), must keep that hash through an RLP round trip, and must keep its sender.  (A decoder that trusts an
+// advertised hash — the JSON "hash" member — breaks "hash survives every supported re-encoding".)
+func hashConsistent(api string, s sgn, t *types.Transaction, in map[string]interface{}) {
+	enc, err := rlp.EncodeToBytes(t)
+	if err != nil {
+		violate("reencoding", api+" re-encode", in, err.Error())
+		return
+	}
+	want := common.BytesToHash(crypto.Keccak256(enc))
+	r := rawOf(t)
+	run.Case("hash "+r.String(), hex.EncodeToString(t.Hash().Bytes()))
+	if t.Hash() != want {
+		violate("reencoding", api+": Hash() is not the hash of the transaction's own encoding", in,
+			fmt.Sprintf("Hash() = %x, keccak(rlp(tx)) = %x", t.Hash(), want))
+	}
+	var d types.Transaction
+	if err := rlp.DecodeBytes(enc, &d); err != nil {
+		violate("reencoding", api+" RLP decode of the re-encoding", in, err.Error())
+		return
+	}
+	if d.Hash() != want || d.Hash() != t.Hash() {
+		violate("reencoding", api+": hash changes through an RLP round trip", in, fmt.Sprintf("before %x after %x", t.Hash(), d.Hash()))
+	}
+	if a, b := sender(s, t), sender(s, &d); a != b {
+		violate("reencoding", api+": sender changes through an RLP round trip", in, a+" vs "+b)
+	}
+}
+
+// jsonHashCases: JSON inputs whose "hash" member is inconsistent with the content: the hash member edited / replaced /
+// removed, and every signed field edited with the advertised hash kept.
+func jsonHashCases(rng *hx.Rng, st *signedTx, other *signedTx) {
+	js, _ := json.Marshal(st.t)
+	var m map[string]interface{}
+	json.Unmarshal(js, &m)
+	orig, _ := m["hash"].(string)
+	type variant struct {
+		what string
+		edit func(m map[string]interface{})
+	}
+	flip := func(h string) string {
+		b := []byte(h)
+		i := 2 + rng.Intn(len(b)-2)
+		if b[i] == '0' {
+			b[i] = '1'
+		} else {
+			b[i] = '0'
+		}
+		return string(b)
+	}
+	bump := func(k string) func(m map[string]interface{}) {
+		return func(m map[string]interface{}) {
+			v, _ := new(big.Int).SetString(strings.TrimPrefix(m[k].(string), "0x"), 16)
+			m[k] = "0x" + v.Add(v, big1).Text(16)
+		}
+	}
+	vs := []variant{
+		{"hash edited", func(m map[string]interface{}) { m["hash"] = flip(orig) }},
+		{"hash zero", func(m map[string]interface{}) { m["hash"] = "0x" + strings.Repeat("0", 64) }},
+		{"hash of another tx", func(m map[string]interface{}) { m["hash"] = other.t.Hash().Hex() }},
+		{"hash removed", func(m map[string]interface{}) { delete(m, "hash") }},
+		{"nonce edited, hash kept", bump("nonce")},
+		{"gasPrice edited, hash kept", bump("gasPrice")},
+		{"gas edited, hash kept", bump("gas")},
+		{"value edited, hash kept", bump("value")},
+		{"input edited, hash kept", func(m map[string]interface{}) { m["input"] = m["input"].(string) + "00" }},
+		{"to edited, hash kept", func(m map[string]interface{}) {
+			if _, ok := m["to"].(string); ok {
+				m["to"] = "0x" + hex.EncodeToString(rng.Bytes(20))
+			} else {
+				m["to"] = "0x" + strings.Repeat("1", 40)
+			}
+		}},
+		{"s edited, hash kept", bump("s")},
+	}
+	for _, v := range vs {
+		m2 := map[string]interface{}{}
+		for kk, vv := range m {
+			m2[kk] = vv
+		}
+		v.edit(m2)
+		j2, _ := json.Marshal(m2)
+		var jd types.Transaction
+		run.Current("jsonhash " + v.what)
+		if err := json.Unmarshal(j2, &jd); err != nil {
+			run.Count("jsonhash:" + v.what + ":err")
+			continue
+		}
+		run.Count("jsonhash:" + v.what + ":ok")
+		in := map[string]interface{}{"json": string(j2), "variant": v.what, "signer": st.s.String()}
+		hashConsistent("JSON ("+v.what+")", st.s, &jd, in)
+		contentSame := rawOf(&jd).String() == st.r.String()
+		if contentSame && jd.Hash() != st.t.Hash() {
+			violate("reencoding", "JSON ("+v.what+"): same content, different hash", in, fmt.Sprintf("%x vs %x", jd.Hash(), st.t.Hash()))
+		}
+		if !contentSame && jd.Hash() == st.t.Hash() {
+			violate("reencoding", "JSON ("+v.what+"): different content reports the original hash", in, fmt.Sprintf("%x", jd.Hash()))
+		}
+		if !contentSame && !sameSigned(rawOf(&jd), st.r) {
+			if got := sender(st.s, &jd); got == "ok "+hex.EncodeToString(st.addr[:]) {
+				violate("mutation-same-sender", "JSON "+v.what, in, "edited JSON transaction still attributed to the signer")
+			}
+		}
+	}
 }
 
 var jsonKeys = []string{"nonce", "gasPrice", "gas", "to", "value", "input", "v", "r", "s"}
@@ -544,6 +651,7 @@ func unjsonMutations(rng *hx.Rng, st *signedTx) {
 			run.Case("unjson "+jsonFields(m2), out)
 			run.Count("unjson:" + strings.Fields(out)[0])
 			if strings.HasPrefix(out, "ok") {
+				hashConsistent("JSON ("+k+" respelled)", st.s, &jd, map[string]interface{}{"json": string(j2)})
 				// a decoded transaction must keep hash and sender iff it is the same transaction; a different one must not be attributed to the signer
 				if jd.Hash() != st.t.Hash() {
 					got := sender(st.s, &jd)
@@ -999,6 +1107,7 @@ func main() {
 	mr := rng.Fork(2)
 	for i, st := range pool {
 		codecCases(st)
+		jsonHashCases(mr, st, pool[(i+1)%len(pool)])
 		mutationCases(mr, st, (thorough && i%2 == 0) || i%12 == 0)
 		if i%3 == 0 || thorough {
 			unjsonMutations(mr, st)
